@@ -190,7 +190,12 @@ def with_reopens(base, min_r=1, max_r=3):
         ops = list(p['ops'])
         for k, pos in enumerate(sorted(positions)):
             i = min(len(ops), (pos * (len(ops) + 1)) // 1000 + k)
-            ops.insert(i, {'k': 'reopen'})
+            ro = {'k': 'reopen'}
+            if pos % 3 == 0:
+                # open a re-laid-out ("foreign") version of the image instead (when eligible)
+                ro['relayout'] = [pos, pos // 3, pos // 7, 11, 5, pos % 13, 2, 7]
+                ro['shrinkvs'] = (pos % 2 == 0)
+            ops.insert(i, ro)
         out = []
         for i, o in enumerate(ops):
             o = dict(o)
